@@ -44,3 +44,23 @@ def hold(call, outs, what):
         if k is not None and not np.array_equal(a, k, equal_nan=True):
             return "%s: output %d handed out by an earlier call changed when the same object was used again (shared buffer)" % (what, i)
     return None
+
+
+def refilled_in_place(f_same, f_fresh, arrays, which, what):
+    """call f_same(*arrays) on one object, refill arrays[which] in place (the caller owns it), call again with the very same
+    array objects: the second result must be that of a fresh object on the new contents.  Returns a message or None."""
+    try:
+        f_same(*arrays)
+        a = arrays[which]
+        if not (isinstance(a, np.ndarray) and a.dtype.kind == "f" and a.flags.writeable) or a.size == 0:
+            return None
+        a *= 1.5
+        a += 0.25
+        second = f_same(*arrays)
+        fresh = f_fresh(*[None if t is None else np.array(t, copy=True) for t in arrays])
+    except Exception:
+        return None
+    for i, (u, w) in enumerate(zip(second, fresh)):
+        if (u is None) != (w is None) or (u is not None and not np.array_equal(np.asarray(u, float), np.asarray(w, float), equal_nan=True)):
+            return "%s: after argument %d was refilled in place and the call repeated with the same array objects, output %d is not that of the new contents" % (what, which, i)
+    return None
